@@ -11,16 +11,6 @@ from harness.props import _c06_util as U
 INF = math.inf
 NAN = math.nan
 
-# ---------------------------------------------------------------------------- known findings
-def finding_key(opname, exc, tensors, args):
-    """name of the known-finding predicate this failure belongs to, or None"""
-    if opname in ("exp", "expm1") and isinstance(exc, RuntimeError) and "without overflow" in str(exc) and tensors:
-        t0 = tensors[0]; d0 = getattr(t0, "default", None)
-        if (getattr(getattr(t0, "physical", None), "dtype", None) == torch.float32 and isinstance(d0, float)
-                and math.isfinite(d0) and 88.72 < d0 <= 709.79):
-            return "exp_default_float64_in_float32"
-    return None
-
 # ---------------------------------------------------------------------------- op catalogue
 class Op:
     def __init__(self, name, impl, ref, n=1, kind="float", gen=None, tol=0.0, tol32=None, nan_default=False,
@@ -302,8 +292,8 @@ def spec_from_pattern(ts, vax, rng, kind, default, nan):
 
 # ---------------------------------------------------------------------------- execution
 class Outcome:
-    def __init__(self, status, detail=None, exc=None, key=None):
-        self.status, self.detail, self.exc, self.key = status, detail, exc, key
+    def __init__(self, status, detail=None, exc=None):
+        self.status, self.detail, self.exc = status, detail, exc
 
 def _tolist_same(a, b):
     if isinstance(a, list) and isinstance(b, list):
@@ -354,7 +344,7 @@ def run_step(op, tensors, denses, args, mon):
         if rexc is not None: return Outcome("both_raise"), None, None
         if isinstance(ex, op.may_raise) and not (len(args) > 1 and args[1] is True):
             return Outcome("allowed_raise", exc=ex), None, None
-        return Outcome("raise", detail=repr(ex), exc=ex, key=finding_key(op.name, ex, tensors, args)), None, None
+        return Outcome("raise", detail=repr(ex), exc=ex), None, None
     finally:
         mon.active = False
     if rexc is not None:
@@ -650,7 +640,7 @@ def run_ops(tier, seed, violations, cov, mon):
                 "input_mutated": "%s modified its operand" % name}.get(out.status, out.status)
         violations.append(Violation(what, case=describe(case), observed=out.detail, oracle="torch on dense_ref (denotation by definition)",
                                     corr="C06 (ii): op(t,u).to_dense() == torch op(t.to_dense(), u.to_dense())", failing_input_found=True,
-                                    call="PatternedTensor.%s" % case["op"], finding_key=getattr(out, "key", None)))
+                                    call="PatternedTensor.%s" % case["op"]))
     # per-operation cases
     per_op_exh = 14 if quick else None
     per_op_rand = 22 if quick else 400
